@@ -16,7 +16,7 @@ from vlib import hxl
 
 ID = 'C07'
 COMPONENTS = ['objects']
-THEOREMS = ['C07_extend_assoc', 'C07_extend_empty_r', 'C07_extend_empty_l',
+THEOREMS = ['C07_extend_assoc', 'C07_asserts_extend', 'C07_assert_only_layer_matters', 'C07_extend_empty_r', 'C07_extend_empty_l',
             'C07_extend_empty_r_values', 'C07_extend_empty_l_values', 'C07_remove_key_values',
             'C07_find_field_spec', 'C07_find_field_found', 'C07_no_panic_no_fuel',
             'C07_super_starts_left', 'C07_extend_super_of_left', 'C07_self_is_final', 'C07_self_sees_override',
@@ -35,7 +35,8 @@ ERRKINDS = {'UnknownObjectField', 'SuperWithoutSuperObject', 'InfiniteRecursion'
 # ---------------------------------------------------------------- abstract descriptions
 # body : ['n', z] | ['u'] | ['s', name] | ['p', name] | ['i', name] | ['a', body, body]
 # field: [name, vis ('d'|'h'|'v'), plus (0|1), body]
-# expr : ['L', [field...], style] | ['P', expr, expr] | ['R', expr, name] | ['M', c, expr] | ['N', expr] | ['G', expr, expr]
+# assert: [message number or None, body]      rendered  assert (body) != 0 : "m<number>"
+# expr : ['L', [field...], style, [assert...]] | ['P', expr, expr] | ['R', expr, name] | ['M', c, expr] | ['N', expr] | ['G', expr, expr]
 # a chain is a list of exprs (its atoms) combined with + in some bracketing
 
 
@@ -61,7 +62,9 @@ def body_tok(b):
 def expr_tok(e):
     k = e[0]
     if k == 'L':
-        return ' '.join(['L', str(len(e[1]))] + ['%s %s %d %s' % (nm_tok(f[0]), f[1], f[2], body_tok(f[3])) for f in e[1]])
+        asr = e[3] if len(e) > 3 else []
+        return ' '.join(['L', str(len(e[1]))] + ['%s %s %d %s' % (nm_tok(f[0]), f[1], f[2], body_tok(f[3])) for f in e[1]]
+                        + [str(len(asr))] + ['%s %s' % ('-' if a[0] is None else '%x' % a[0], body_tok(a[1])) for a in asr])
     if k == 'P':
         return 'P ' + expr_tok(e[1]) + ' ' + expr_tok(e[2])
     if k == 'R':
@@ -163,14 +166,40 @@ def gen_body(rng, names, depth=0, safe=False):
     return ['a', gen_body(rng, names, depth + 1), gen_body(rng, names, depth + 1)]
 
 
-def gen_literal(rng, names, safe=False):
-    if rng.random() < 0.12:
+def gen_asserts(rng, names, many=False):
+    out = []
+    for _ in range(rng.choice([1, 1, 2, 3] if many else [1, 1, 2])):
+        r = rng.random()
+        if r < 0.28:
+            b = ['n', 1]
+        elif r < 0.36:
+            b = ['n', 0]
+        elif r < 0.68:
+            b = ['s', rng.choice(names)]
+        elif r < 0.78:
+            b = ['p', rng.choice(names)]
+        elif r < 0.88:
+            b = ['i', rng.choice(names)]
+        else:
+            b = ['a', ['s', rng.choice(names)], ['n', rng.choice([0, 1, -1, -4])]]
+        out.append([rng.choice([None, None, 1, 2, 3, 10]), b])
+    return out
+
+
+def gen_literal(rng, names, safe=False, noassert=False):
+    r0 = rng.random()
+    if r0 < 0.10:
+        # a layer WITHOUT fields that may still matter: only asserts, only object locals, only
+        # null-named computed fields, or a mix of them
+        asr = gen_asserts(rng, names, True) if (not noassert and rng.random() < 0.75) else []
+        return ['L', [], 'fieldless', asr]
+    if r0 < 0.20:
         # comprehension-built layer: same body, default visibility for every field
         k = rng.choice([1, 2, 2, 3])
         ns = rng.sample(names, k)
         plus = 1 if rng.random() < (0.08 if safe else 0.25) else 0
         b = gen_body(rng, names, 0, safe)
-        return ['L', [[n, 'd', plus, b] for n in ns], 'comp']
+        return ['L', [[n, 'd', plus, b] for n in ns], 'comp', []]
     k = rng.choice([0, 1, 1, 1, 2, 2, 2, 3, 4])
     ns = rng.sample(names, k)
     fs = []
@@ -178,25 +207,27 @@ def gen_literal(rng, names, safe=False):
         v = rng.choice('ddddhhvv')
         plus = 1 if rng.random() < (0.08 if safe else 0.25) else 0
         fs.append([n, v, plus, gen_body(rng, names, 0, safe)])
-    return ['L', fs, 'lit']
+    asr = gen_asserts(rng, names) if (not noassert and rng.random() < 0.10) else []
+    return ['L', fs, 'lit', asr]
 
 
-def gen_atom(rng, names, depth, safe=False):
+def gen_atom(rng, names, depth, safe=False, noassert=False):
     r = rng.random()
     if depth >= 2 or r < 0.62:
-        return gen_literal(rng, names, safe)
+        return gen_literal(rng, names, safe, noassert)
     if r < 0.84:
-        return ['R', gen_chain_expr(rng, names, depth + 1, safe), rng.choice(names)]
+        return ['R', gen_chain_expr(rng, names, depth + 1, safe, noassert), rng.choice(names)]
     if r < 0.90:
-        return ['M', rng.choice([10, 100, 1000]), gen_chain_expr(rng, names, depth + 1, safe)]
+        # the asserts of a mapWithKey source run lazily inside its call thunks (not modelled): keep it assert-free
+        return ['M', rng.choice([10, 100, 1000]), gen_chain_expr(rng, names, depth + 1, safe, True)]
     if r < 0.95:
-        return ['N', gen_chain_expr(rng, names, depth + 1, True)]
-    return ['G', gen_chain_expr(rng, names, depth + 1, True), gen_chain_expr(rng, names, depth + 1, True)]
+        return ['N', gen_chain_expr(rng, names, depth + 1, True, noassert)]
+    return ['G', gen_chain_expr(rng, names, depth + 1, True, noassert), gen_chain_expr(rng, names, depth + 1, True, noassert)]
 
 
-def gen_chain_expr(rng, names, depth, safe=False):
+def gen_chain_expr(rng, names, depth, safe=False, noassert=False):
     k = rng.choice([1, 1, 2, 2, 3])
-    atoms = [gen_atom(rng, names, depth, safe) for _ in range(k)]
+    atoms = [gen_atom(rng, names, depth, safe, noassert) for _ in range(k)]
     return tree_expr(random_tree(rng, 0, k), atoms)
 
 
@@ -255,8 +286,20 @@ def render_fname(rng, n):
 VIS = {'d': ':', 'h': '::', 'v': ':::'}
 
 
+def render_assert(rng, a):
+    msg, b = a
+    if b == ['n', 1] and rng.random() < 0.6:
+        cond = 'true'
+    elif b == ['n', 0] and rng.random() < 0.6:
+        cond = 'false'
+    else:
+        cond = '%s != 0' % render_body(rng, b)
+    return 'assert %s%s' % (cond, '' if msg is None else ' : "m%x"' % msg)
+
+
 def render_literal(rng, e):
     fs, style = e[1], (e[2] if len(e) > 2 else 'lit')
+    asr = e[3] if len(e) > 3 else []
     if style == 'comp' and fs:
         ns = [f[0] for f in fs]
         b = render_body(rng, fs[0][3])
@@ -272,9 +315,17 @@ def render_literal(rng, e):
             parts.append('local t%d = %s' % (i, b))
             b = 't%d' % i
         parts.append('%s%s%s %s' % (render_fname(rng, f[0]), '+' if f[2] else '', VIS[f[1]], b))
-    if rng.random() < 0.12:
-        parts.append(rng.choice(['[null]: 1', '[if false then "q"]: 2', 'assert true', 'local unused = self']))
+    noise = ['[null]: 1', '[if false then "q"]: 2', 'local unused = self', 'local z = 1']
+    if style == 'fieldless':
+        parts += rng.sample(noise, rng.choice([0, 1, 1, 2]) if asr else rng.choice([1, 1, 2]))
+    elif rng.random() < 0.12:
+        parts.append(rng.choice(noise))
+    aparts = [render_assert(rng, a) for a in asr]      # asserts keep their order (the first failing one is reported)
     rng.shuffle(parts)
+    # interleave the asserts, in order, at random positions
+    pos = sorted(rng.randint(0, len(parts)) for _ in aparts)
+    for off, (i, ap) in enumerate(zip(pos, aparts)):
+        parts.insert(i + off, ap)
     return '{ ' + ', '.join(parts) + ' }' if parts else '{ }'
 
 
@@ -341,6 +392,9 @@ def impl_answer(r):
         except Exception as e:
             return ('BAD', 'unparsable output %r' % vlib.uncps(f[1])[:100])
     if f[0] == 'ERR' and len(f) > 2:
+        if f[1] == 'EVAL' and f[2] == 'AssertFailed':
+            # the user message is part of the outcome
+            return ('ERR', 'AssertFailed:' + (vlib.uncps(f[3]) if len(f) > 3 and f[3] != '-' else '-'))
         return ('ERR', f[1] + ':' + f[2]) if f[1] != 'EVAL' else ('ERR', f[2])
     return ('BAD', r[:100])
 
@@ -635,7 +689,8 @@ def run_chains(run, cases, impl_exe, model_exe, tier, label):
                 viol('super-not-left', '%r in super at cut %d is %r, the layers to the left say %r' % (inf['g'], inf['cut'], la[1][1], want_in),
                      {'other_program': B.text['%s/late' % cid]})
             run.count('late_binding_probes')
-        elif la[0] == 'ERR' and S is not None and la[1] in ERRKINDS:
+        elif la[0] == 'ERR' and S is not None and la[1] in ERRKINDS and 'asserts' not in kinds_of_all(c['atoms']):
+            # (with asserts in the chain the probe may legitimately fail: they read the overridden self)
             viol('self-not-late-bound', 'late-binding probe fails with %s' % la[1], {'other_program': B.text['%s/late' % cid]})
 
         # ---- bookkeeping
@@ -824,6 +879,10 @@ def kinds_of_all(atoms):
                 acc.update('body_' + x for x in bk)
             if len(e) > 2 and e[2] == 'comp':
                 acc.add('comprehension')
+            if len(e) > 2 and e[2] == 'fieldless':
+                acc.add('fieldless_layer')
+            if len(e) > 3 and e[3]:
+                acc.add('asserts')
     for a in atoms:
         go(a)
     return acc
